@@ -632,9 +632,14 @@ package server
 // read-only flag on its log, and addPartition re-applies the paused flag
 //@ ghost var roApplied bool
 //@ ghost var pauseApplied bool
-//@ func (*Server).newPartition serves C06
+// (C17) every replica of an encrypted stream - not only its leader - has the encryption handler: a follower serves
+// subscribers too (ReadISRReplica) and opens the values with it
+//@ ghost var encryptionWanted bool
+//@ func (*Server).newPartition serves C06, C17
 //@   returns (p, err)
 //@   requires protoPartition != nil
+//@   ghost after call ApplyOverrides: ghost.encryptionWanted := streamsConfig.Encryption
+//@   ensures [C17:every-replica-of-an-encrypted-stream-has-the-handler] err == nil && ghost.encryptionWanted ==> p != nil && p.encryptionHandler != nil
 //@   ghost at entry: ghost.roApplied := false
 //@   ghost after call SetReadonly: ghost.roApplied := arg1
 //@   ensures [readonly-reapplied] err == nil && old(protoPartition.Readonly) ==> ghost.roApplied
